@@ -25,7 +25,7 @@ ALL_CB = ["on_open", "on_message", "on_data", "on_ping", "on_pong", "on_error", 
 
 def bounds(tier):
     if tier == "quick":
-        return ("26 endings x {no ping thread, ping thread} x {plain, TLS}; preemption bound 1 at synchronisation points for ping-thread scenarios; closer thread: "
+        return ("28 endings x {no ping thread, ping thread} x {plain, TLS}; preemption bound 1 at synchronisation points for ping-thread scenarios; closer thread: "
                 "1 preemption at every synchronisation point (all scenarios) and at every executed line (one scenario)")
     return ("same scenarios; preemption bound 2 at synchronisation points; closer thread: 1 preemption at every executed library line for every closer scenario, 2 at synchronisation points")
 
@@ -49,6 +49,9 @@ def endings():
     E.append(("unknown-opcode", dict(tail=[(3.0, "data", R.encode(3, b"x", byte0=0x83))]), dict(close=(None, None), err=True)))
     E.append(("cont-without-start", dict(tail=[(3.0, "data", R.encode(R.CONT, b"x"))]), dict(close=(None, None), err=True)))
     E.append(("silence-ping-timeout", dict(tail=[], silent_pings=True, needs_ping=True), dict(close=(None, None), err=True)))
+    # a clean first run followed by a second run whose end depends on the keepalive machinery working again
+    E.append(("clean-then-silent-second-run", dict(tail=[(3.0, "data", R.encode(R.CLOSE, b"\x03\xe8"))], needs_ping=True, second="silent"),
+              dict(close=(1000, ""), err=False, second=dict(close=(None, None), err=True))))
     E.append(("refused", dict(refused=True), dict(close=(None, None), err=True, noopen=True)))
     E.append(("handshake-404", dict(hs="status:404"), dict(close=(None, None), err=True, noopen=True)))
     E.append(("handshake-garbage", dict(hs="garbage"), dict(close=(None, None), err=True, noopen=True)))
@@ -116,6 +119,8 @@ def make_spec(desc):
             spec["raise_exc"] = "KeyboardInterrupt"
         spec["expect"] = dict(exp)
         spec["expect"]["name"] = name
+        if peer.get("second") == "silent":
+            spec["second_attempts"] = [lambda: tnet.ServerPeer(script=traffic(), on_ping=None)]
         if exp["err"]:
             # after a run that reported an error the same object is run against a clean peer: nothing of the first run may stick
             spec["second_attempts"] = [lambda: tnet.ServerPeer(script=traffic() + [(3.0, "data", R.encode(R.CLOSE, b"\x03\xe8"))], on_ping=("all", 0.25))]
@@ -168,6 +173,8 @@ def check_run(run, res, spec):
     for k, (out, tr) in enumerate(zip(outs, runs)):
         which = "run %d" % (k + 1)
         e2 = exp if k == 0 or not (exp.get("closer") or exp.get("second_clean")) else {"close": (1000, ""), "err": False, "name": name}
+        if k == 1 and exp.get("second"):
+            e2 = dict(exp["second"], name=name)
         cbs = [e for e in tr if not e[1].startswith("--")]
         ret_idx = [i for i, e in enumerate(tr) if e[1] == "--run-returned--"]
         if out[0] != "ret":
@@ -209,7 +216,7 @@ def check_run(run, res, spec):
     if run.app.ping_thread is not None and run.app.ping_thread.is_alive():
         raise V("thread-alive", "ping thread alive")
     # second run equals a fresh object's run on the same scenario (differential)
-    if len(runs) == 2 and not exp.get("closer") and not exp.get("second_clean"):
+    if len(runs) == 2 and not exp.get("closer") and not exp.get("second_clean") and not exp.get("second"):
         a = [(e[1], e[2]) for e in runs[0] if not e[1].startswith("--")]
         b = [(e[1], e[2]) for e in runs[1] if not e[1].startswith("--")]
         if a != b or outs[0] != outs[1]:
